@@ -2,12 +2,12 @@ CONSTANTS
   Towers = {"t1", "t2"}
   Locators = {"l1", "l2"}
   DEVIATIONS = {}
-  MaxNotify = 2
+  MaxNotify = 1
   MaxConc = 2
   MaxKill = 1
-  MaxBad = 2
+  MaxBad = 1
   MaxDown = 1
-  MaxRetry = 1
+  MaxRetry = 0
   MaxAbandon = 0
   MaxReg = 0
   AddKinds = {"sub_error", "reject", "garbage", "badsig", "malsig"}
